@@ -37,6 +37,18 @@ fn ec_doc(nid: openssl::nid::Nid, kty: &'static str, docs: &mut Vec<Doc>) {
 	docs.push(Doc { origin: "openssl".into(), fmt: "sec1", kty, der: sec1, public });
 }
 
+/// the format of a private-key document, read off its own structure
+fn classify_doc(der: &[u8]) -> &'static str {
+	let kids = crate::der::read_tlv(der).and_then(|(t, _)| crate::der::children(t.content)).map(|k| k.iter().map(|v| (v.tag, v.content.to_vec())).collect::<Vec<_>>()).unwrap_or_default();
+	match kids.as_slice() {
+		[(2, v), (0x30, _), (4, _)] if v == &vec![0u8] => "pkcs8v1",
+		[(2, v), (0x30, _), (4, _), ..] if v == &vec![1u8] => "pkcs8v2",
+		[(2, v), (4, _), ..] if v == &vec![1u8] => "sec1",
+		[(2, v), (2, _), ..] if v == &vec![0u8] => "pkcs1",
+		_ => "unknown",
+	}
+}
+
 fn make_docs(rsa_fixture: &[u8], thorough: bool) -> Vec<Doc> {
 	let mut docs = Vec::new();
 	// OpenSSL
@@ -79,8 +91,9 @@ fn make_docs(rsa_fixture: &[u8], thorough: bool) -> Vec<Doc> {
 				"ecdsaP521" => "p521",
 				_ => "rsa",
 			};
-			let fmt = if kty == "ed25519" && backend() == "ring" { "pkcs8v2" } else { "pkcs8v1" };
-			docs.push(Doc { origin: format!("rcgen-{}", alg_name(alg)), fmt, kty, der: k.serialize_der(), public: k.public_key_raw().to_vec() });
+			let der = k.serialize_der();
+			let fmt = classify_doc(&der);
+			docs.push(Doc { origin: format!("rcgen-{}", alg_name(alg)), fmt, kty, der, public: k.public_key_raw().to_vec() });
 		}
 	}
 	docs
@@ -182,6 +195,74 @@ fn check_loaded(s: &mut Suite, what: &str, doc: &Doc, k: &KeyPair) {
 	}
 }
 
+/// the export of a loaded key is a PKCS#8 document (what `serialize_der` / `serialize_pem`
+/// document and what the PEM label says): it loads through every PKCS#8 entry point under the
+/// algorithm the key reports, and OpenSSL reads it as PKCS#8 with the same public key
+fn check_export(s: &mut Suite, what: &str, doc: &Doc, k: &KeyPair) {
+	let exported = k.serialize_der();
+	let pem_text = k.serialize_pem();
+	let ctx_txt = format!("{} origin={} fmt={} kty={} alg={}\nexported={}", what, doc.origin, doc.fmt, doc.kty, alg_name(k.algorithm()), hex(&exported));
+	s.rep.count("exports_checked");
+	match pem::parse(&pem_text) {
+		Ok(p) => {
+			if p.tag() != "PRIVATE KEY" || p.contents() != &exported[..] {
+				s.rep.violate("C11:export-pem-wraps-der", "serialize_pem does not wrap serialize_der under the PRIVATE KEY label", ctx_txt.clone());
+			}
+		},
+		Err(_) => s.rep.violate("C11:export-pem-wraps-der", "serialize_pem is not PEM", ctx_txt.clone()),
+	}
+	// model tie: the format of the export, read off the document's own structure
+	let real_fmt = classify_doc(&exported);
+	let line = format!("key-export {} {} {}", backend(), doc.fmt, doc.kty);
+	let model_fmt = s.drv.ask(&line);
+	if model_fmt != real_fmt {
+		s.rep.disagree("C11:key-export", "model and implementation differ on the format of a loaded key's export", format!("request: {}\nreal:  {}\nmodel: {}\n{}", line, real_fmt, model_fmt, ctx_txt));
+	}
+	let p8 = PrivatePkcs8KeyDer::from(exported.clone());
+	let loads: Vec<(&str, std::thread::Result<Result<KeyPair, Error>>)> = vec![
+		("try_from(&PrivatePkcs8KeyDer)", std::panic::catch_unwind(std::panic::AssertUnwindSafe(|| KeyPair::try_from(&p8)))),
+		("from_pkcs8_der_and_sign_algo", std::panic::catch_unwind(std::panic::AssertUnwindSafe(|| KeyPair::from_pkcs8_der_and_sign_algo(&p8, k.algorithm())))),
+		("from_pkcs8_pem_and_sign_algo", std::panic::catch_unwind(std::panic::AssertUnwindSafe(|| KeyPair::from_pkcs8_pem_and_sign_algo(&pem_text, k.algorithm())))),
+		("from_pem", std::panic::catch_unwind(std::panic::AssertUnwindSafe(|| KeyPair::from_pem(&pem_text)))),
+		("from_pem_and_sign_algo", std::panic::catch_unwind(std::panic::AssertUnwindSafe(|| KeyPair::from_pem_and_sign_algo(&pem_text, k.algorithm())))),
+	];
+	for (entry, r) in loads {
+		match r {
+			Ok(Ok(k2)) => {
+				if k2.public_key_raw() != k.public_key_raw() || (k2.algorithm() != k.algorithm() && (doc.kty != "rsa" || entry.ends_with("sign_algo"))) {
+					s.rep.violate(&format!("C11:export-reloads:{}", doc.fmt), "the export of a loaded key reloads as a different key or algorithm", format!("entry={} {}", entry, ctx_txt));
+				}
+			},
+			Ok(Err(e)) => s.rep.violate(&format!("C11:export-reloads:{}", doc.fmt), "the export of a loaded key (serialize_der / serialize_pem, documented as PKCS#8) is refused by a PKCS#8 loading entry point", format!("entry={} error={:?} {}", entry, e, ctx_txt)),
+			Err(_) => s.rep.violate("C11:load-panics", "loading a key panics", format!("entry={} {}", entry, ctx_txt)),
+		}
+	}
+	// independent reader.  OpenSSL reads PrivateKeyInfo (version 0); the OneAsymmetricKey form
+	// with version 1 and the public key attached (RFC 5958, what ring and aws-lc-rs generate for
+	// Ed25519) is PKCS#8 too but not read by it, so it is judged by the loaders above alone
+	let version = crate::der::read_tlv(&exported).and_then(|(t, _)| crate::der::children(t.content)).and_then(|k| k.first().map(|v| (v.tag, v.content.to_vec())));
+	if version != Some((2, vec![0])) {
+		s.rep.count(if matches!(version, Some((2, _))) { "export_pkcs8_v2_not_judged_by_openssl" } else { "export_without_version" });
+		if !matches!(version, Some((2, _))) {
+			s.rep.violate(&format!("C11:export-is-pkcs8:{}", doc.fmt), "the export of a loaded key does not start like a PKCS#8 document (SEQUENCE { INTEGER version, ...", ctx_txt.clone());
+		}
+		return;
+	}
+	match PKey::private_key_from_pkcs8(&exported) {
+		Ok(pk) => {
+			s.rep.count("oracle_openssl_pkcs8_read");
+			let same = match pk.public_key_to_der() {
+				Ok(spki) => spki == k.public_key_der(),
+				Err(_) => false,
+			};
+			if !same {
+				s.rep.violate("C11:export-openssl-public-key", "OpenSSL reads the exported PKCS#8 document as a key with another public key", ctx_txt.clone());
+			}
+		},
+		Err(_) => s.rep.violate(&format!("C11:export-is-pkcs8:{}", doc.fmt), "OpenSSL cannot read the export of a loaded key as PKCS#8", ctx_txt.clone()),
+	}
+}
+
 pub fn run(ctx: &mut Ctx) -> Report {
 	let rule = "key documents (rcgen-generated per algorithm; ring-generated; OpenSSL-generated PKCS#8 v1, SEC1, PKCS#1, RSA 2048/3072/4096) x loading entry points (auto-detecting from DER, PEM, PrivatePkcs8KeyDer; explicit algorithm via PKCS#8 DER/PEM and via any-format DER/PEM) x every requested algorithm of the build (matching and mismatched); non-trivial = one (document, entry point, algorithm)";
 	let mut s = Suite::new(ctx, "C11", rule);
@@ -189,6 +270,14 @@ pub fn run(ctx: &mut Ctx) -> Report {
 	let algs = keys::build_algs();
 	for doc in &docs {
 		s.rep.count(&format!("doc:{}:{}:{}", doc.origin.split('-').next().unwrap(), doc.fmt, doc.kty));
+		if doc.origin.starts_with("rcgen-") {
+			// the format of a generated key's export
+			let line = format!("key-export {} generated {}", backend(), doc.kty);
+			let model = s.drv.ask(&line);
+			if model != doc.fmt {
+				s.rep.disagree("C11:key-export-generated", "model and implementation differ on the format of a generated key's export", format!("request: {}\nreal:  {}\nmodel: {}", line, doc.fmt, model));
+			}
+		}
 		let pem_text = pem::encode(&pem::Pem::new(pem_label(doc.fmt), doc.der.clone()));
 		// --- auto-detecting entry points
 		let autos: Vec<(&str, std::thread::Result<Result<KeyPair, Error>>)> = vec![
@@ -209,6 +298,7 @@ pub fn run(ctx: &mut Ctx) -> Report {
 			}
 			if let Some(k) = k {
 				check_loaded(&mut s, name, doc, &k);
+				check_export(&mut s, name, doc, &k);
 				// save/load again through rcgen's own export
 				let again = KeyPair::try_from(k.serialize_der());
 				match again {
@@ -269,6 +359,7 @@ pub fn run(ctx: &mut Ctx) -> Report {
 						s.rep.violate("C11:told-algorithm-kept", "a key loaded under an explicit algorithm reports another one", line8.clone());
 					}
 					check_loaded(&mut s, name, doc, &k);
+					check_export(&mut s, name, doc, &k);
 				}
 			}
 			// any-format entry points
@@ -296,6 +387,7 @@ pub fn run(ctx: &mut Ctx) -> Report {
 						s.rep.violate("C11:told-algorithm-kept", "a key loaded under an explicit algorithm reports another one", lined.clone());
 					}
 					check_loaded(&mut s, name, doc, &k);
+					check_export(&mut s, name, doc, &k);
 				}
 			}
 		}
